@@ -323,7 +323,9 @@ func (w *World) tryMempool(t *rapid.T) bool {
 	h := tx.TxHash()
 	w.everSeen[h] = tx
 	w.logf("mempool %s %s -> %v", kind, h.String()[:10], err)
-	if err != nil {
+	if err != nil && kind != "duplicate" {
+		// (a re-delivered pending transaction may be answered with an error as long as nothing changes,
+		// which the audits check)
 		t.Fatalf("unconfirmed transaction %s (%s) whose inputs are all known was refused: %v\n  %s", h.String()[:10], kind, err, w.journalTail(20))
 	}
 	if w.txRelevant(tx, false) {
